@@ -169,6 +169,7 @@ def job_sched(job):
     frontier = collections.deque([[]])
     outcomes = set()
     max_enabled = 0
+    n_final = 0
     while frontier:
         pref = frontier.popleft()
         try:
@@ -178,6 +179,7 @@ def job_sched(job):
             continue
         r.evaluations += 1
         if s.final:
+            n_final += 1
             outcomes.add(check_terminal(r, nloci, fail, main, out, pref, tag, payload_base))
             continue
         max_enabled = max(max_enabled, s.n_enabled_at_stop)
@@ -198,6 +200,9 @@ def job_sched(job):
     for o in outcomes:
         r.outcome((tag, o))
     r.count("sched_distinct_terminal_outcomes", len(outcomes))
+    r.count("sched_terminal_states_checked", n_final)
+    if n_final == 0:
+        r.violation("sched-vacuous|" + tag, "exploration reached no terminal state", payload_base)
     r.sample({"schedule_exploration": tag, "states": len(seen), "terminal_outcomes": len(outcomes), "max_enabled_tasks": max_enabled,
               "example_outcome": list(sorted(outcomes)[0]) if outcomes else None}, cap=1)
     return r
